@@ -3,5 +3,7 @@
 set -euo pipefail
 cd "$(dirname "$0")"
 export CARGO_NET_OFFLINE=true
+mkdir -p target evidence replays
 python3 tools/gen_shadow.py
 cargo build -p lsim 2>&1 | tail -3
+./target/debug/lsim selftest-determinism --runs 40
